@@ -196,11 +196,15 @@ func (pit *pebbleIterator) Seek(id []byte) error {
 // Seek moves the iterator to a new location
 func (pit *pebbleIterator) SeekReverse(id []byte) error {
 	pit.forward = false
-	if !pit.iter.SeekGE(id) {
-		return io.EOF
+	ok := pit.iter.SeekGE(id)
+	if !ok {
+		//every key is below id: the last key is the largest one at or below id
+		ok = pit.iter.Last()
+	} else if bytes.Compare(id, pit.iter.Key()) < 0 {
+		ok = pit.iter.Prev()
 	}
-	if bytes.Compare(id, pit.iter.Key()) < 0 {
-		pit.iter.Prev()
+	if !ok {
+		return io.EOF
 	}
 	pit.key = copyBytes(pit.iter.Key())
 	pit.value = copyBytes(pit.iter.Value())
